@@ -6,6 +6,7 @@
 (R)  c19_spline replay: every TLC-emitted knot set evaluated at scales 1e-4..1e4; predictions at knots/midpoints against TLC's rational
      value (rel 1e-9), the piece actually used identified from the public S table; curve_area against TLC's exact area.
 (V)  c19_spline ledger: 3..40 knots, uniform / irregular spacings 1e-4..1e4: interpolation, C1/C2, natural ends, linear reproduction,
+     the one-call form interpolate() (shape, increasing abscissae over the knot range, value = two-call form, first point, lines),
      unit independence, trapezoid exactness/additivity, validated by TLC against TraceSpline.tla.
      c19_nm: objective-callback traces of NelderMeadSimplex on strictly convex quadratics (2..6 dims, cond <= 100): TraceNM.tla infers the
      unlogged move of every evaluation (Gao-Han automaton = Impl layer); TraceNMProp.tla (flat) holds the result contract.
@@ -83,6 +84,11 @@ def _sig_spline(ev):
                  ("linear", ev["lin"] > T), ("unit", ev["unit"] > T)]
         k = next((n for n, bad in order if bad), "ledger")
         return "SPLINE:%s:%s" % (k, dec_name(ev["dec"])), "%d knots, spacing decade %s, irregular=%s: %s" % (ev["nk"], dec_name(ev["dec"]), ev["irr"], ev)
+    if e == "Interp":
+        T = 10000
+        order = [("shape", ev["dims"] != 1 or ev["mono"] != 1), ("value", ev["val"] > T), ("first-point", ev["first"] > T), ("range", ev["ends"] > T), ("linear", ev["lin"] > T)]
+        k = next((n for n, bad in order if bad), "ledger")
+        return "SPLINE:interpolate:%s:%s" % (k, dec_name(ev["dec"])), "interpolate() on %d knots, %d points, spacing decade %s: %s" % (ev["nk"], ev["np"], dec_name(ev["dec"]), ev)
     if e == "Knots":
         return "SPLINE:table:%s" % dec_name(ev["E"]), "coefficient table has %s rows for %s knots" % (ev.get("rows"), ev.get("nk"))
     return "SPLINE:trace:%s" % e, "unexpected event %s" % ev
@@ -157,6 +163,10 @@ def spline_ledger(ctx, exe, rd, count):
     for ev in events:
         if ev["e"] == "Ledger":
             ctx.case(("ledger", ev["nk"], ev["dec"], ev["irr"]), True)
+        if ev["e"] == "Interp":
+            ctx.case(("interpolate", ev["nk"], ev["dec"], ev["np"]), ev["np"] > 2)
+    if not any(ev["e"] == "Interp" for ev in events):
+        raise InfraError("c19_spline ledger recorded no interpolate() call")
     ctx.sample(events[0], 5)
     ctx.sample(events[len(events) // 2], 6)
     _validate_spline(ctx, events, "trace_spline_ledger", "spline_ledger")
